@@ -45,16 +45,34 @@ package interp
 //@ onstore getopts.runeidx [nonneg] value >= 0
 //@ modifies *g
 
+// The flag parser of the builtins and of Params. Its pending text `current` is empty or a sign followed by at least one
+// letter ("-ab" leaves "-b" pending): an object invariant, written only by flag() (onstore obligation; that there is no
+// other writer is the onstore-coverage obligation). more() reports true only when a flag is pending, and the flag
+// returned is a sign alone or a sign and one letter, which is what the callers index (Params: flag[0], flag[1]).
+//@ spec flagShape(s string) bool = len(s) >= 1 && (s[0] == '-' || s[0] == '+')
+//@ spec pendingShape(c string) bool = c == "" || (len(c) >= 2 && (c[0] == '-' || c[0] == '+'))
 //@ func flagParser.more
 //@ props C28
-//@ ensures [more-means-pending] implies(result, p.current != "" || len(p.remaining) > 0)
+//@ objinv flagParser [pending-shape] pendingShape(self.current)
+//@ ensures [more-means-pending] implies(result, p.current != "" || (len(p.remaining) > 0 && flagShape(p.remaining[0])))
+//@ ensures [pending-kept] p.current == old(p.current)
 //@ modifies *p
 //@ func flagParser.value
 //@ props C28
-// flag() is only called after more() returned true: then an argument is pending.
+//@ ensures [pending-kept] p.current == old(p.current)
+//@ modifies *p
+// flag() is only called after more() returned true: then a flag is pending.
 //@ func flagParser.flag
 //@ props C28
-//@ requires [after-more] p.current != "" || len(p.remaining) > 0
+//@ objinv flagParser [pending-shape] pendingShape(self.current)
+//@ onstore flagParser.current [pending-shape] pendingShape(value)
+//@ requires [after-more] p.current != "" || (len(p.remaining) > 0 && flagShape(p.remaining[0]))
+//@ ensures [flag-shape] flagShape(result) && len(result) <= 2
+//@ modifies *p
+
+// Params: the closure that applies `set` style arguments indexes flag[0] and flag[1] after ruling out "-" and "+".
+//@ func Params$1
+//@ props C28
 
 //@ func cutElemSubscript
 //@ props C28
@@ -142,3 +160,76 @@ package interp
 
 //@ func tracer.call
 //@ props C28
+
+// ---- C28: functions on the path of Run whose index, slice, division, type assertion and panic obligations are
+// discharged without any annotation (found by the zero-annotation sweep, `govc sweep interp`). ----
+//@ func DefaultReadDirHandler$1
+//@ props C28
+//@ func LookPath
+//@ props C28
+//@ func New
+//@ props C28
+//@ func ReadDirHandler$1$1
+//@ props C28
+//@ func Runner.bashOptByName
+//@ props C28
+//@ func Runner.fillExpandConfig$1
+//@ props C28
+//@ func Runner.flattenAssigns$1
+//@ props C28
+//@ func Runner.hdocString$1
+//@ props C28
+//@ func Runner.hdocString
+//@ props C28
+//@ func Runner.loopStmtsBroken
+//@ props C28
+//@ func Runner.posixOptByFlag
+//@ props C28
+//@ func Runner.posixOptByName
+//@ props C28
+//@ func Runner.posixOptFlags
+//@ props C28
+//@ func Runner.runHelp
+//@ props C28
+//@ func Runner.stmtSync
+//@ props C28
+//@ func Runner.stmts
+//@ props C28
+//@ func Runner.subshell
+//@ props C28
+//@ func catShortcutArg
+//@ props C28
+//@ func findExecutable
+//@ props C28
+//@ func hdocQuotedDelim
+//@ props C28
+//@ func helpMatch
+//@ props C28
+//@ func pathExts
+//@ props C28
+//@ func stringIndex
+//@ props C28
+//@ func testParser.next
+//@ props C28
+
+// ---- C28: every lookup of a shell variable passes a non-empty name (lookupVar panics on an empty one) ----
+//@ func expandEnv.Get
+//@ props C28
+//@ func Runner.envGet
+//@ props C28
+//@ requires [non-empty-name] name != ""
+
+// The unary test operators: the switch handles every operator the parser produces ([parsed-operator] is the range of
+// syntax.UnTestOperator without TsParen, which the parser turns into a ParenTest node), so the final panic is dead.
+//@ func Runner.unTest
+//@ props C28
+//@ requires [parsed-operator] (op >= syntax.TsExists && op <= syntax.TsRefVar) || op == syntax.TsNot
+
+// The test expressions the parser builds: the operands of the string-matching operators are words, unary operators
+// are the ones above (assumed: invariants of parser output).
+//@ func Runner.bashTest
+//@ props C28
+//@ astinv BinaryTest [match-operands-are-words] implies(self.Op == syntax.TsMatchShort || self.Op == syntax.TsMatch || self.Op == syntax.TsNoMatch, dyntype(self.X, "*syntax.Word") && dyntype(self.Y, "*syntax.Word"))
+//@ astinv UnaryTest [parsed-operator] (self.Op >= syntax.TsExists && self.Op <= syntax.TsRefVar) || self.Op == syntax.TsNot
+//@ stable *expr.(*syntax.BinaryTest)
+//@ note stable: the interpreter never writes to the syntax tree it runs (C29); expansions only read it
